@@ -35,7 +35,14 @@ VARIES = (
     "served first by the same manager, devices that over-ask for data many times, a failed exchange "
     "in the middle of a dialogue followed by the next request, a transport whose close() raises, "
     "twelve kinds of wrong echo, in-place output files, blank entries in lists, upper-case and "
-    "blank-separated hex")
+    "blank-separated hex, requests refused at every stage followed by a good request on the same "
+    "manager, fields of other commands added to a request, multi-byte characters across every "
+    "byte offset of long lines, well-formed device answers carrying another opcode of the command "
+    "at every step, signatures of every total DER length (incl. exactly 64 bytes), the clock moving "
+    "between two validations in one process, certificates issued with Ed25519/RSA/P-384 keys, PIN "
+    "files that are symbolic links, a link failure right after a time-out, a fatal request while "
+    "other clients are queued, slow (not late) devices answering after 1..9 s, a second operator "
+    "grabbing the device while the first is at a prompt, long option names and -v/--verbose")
 
 IDEAS = (
     "a code path only reached through a rarely used command-line option, environment variable or "
